@@ -738,4 +738,51 @@ example : (((construct 10 0 true (some (11, true)) none [] [5] (some (0, true)))
 example : (((construct 10 0 true (some (11, true)) none [.viaNS 5 (.ok 1)] [5] (some (0, true))).run demoHeap).1 0).kids
     = [1, 10] := by decide
 
+/-! ### reference children that only CLAIM to be children (pointer surgery) -/
+
+/-- **C07 (stale reference child)**: whatever the reference node's own parent pointer says — a shallow copy of a
+    child, a child struck from the list by hand, a node whose `parentNode` was assigned — if it is not in the
+    receiver's child list, `insertBefore` raises NotFoundErr and returns the heap it was given: the new child has
+    not left the place it had. -/
+theorem insertBefore_stale_ref (h : Heap) (p n r : Id) (hk : (h p).kind = .elem) (hr : r ∉ (h p).kids) :
+    (insertBefore p n (some r)).run h = (h, .error .NotFound) := by
+  rw [insertBefore_run]
+  simp [hk, RefOk, hr]
+
+/-- **C07 (stale child)**: likewise `removeChild` of a node that is in no child list of the receiver. -/
+theorem removeChild_stale (h : Heap) (p c : Id) (hr : c ∉ (h p).kids) :
+    (removeChild p c).run h = (h, .error .NotFound) := by
+  rw [removeChild_run]
+  simp [hr]
+
+/-- `insertBefore` deciding "is refChild my child" by the reference node's parent POINTER instead of by
+    membership of the child list -/
+def insertBeforeByParentPointer (p n : Id) (ref : Option Id) : M Unit := do
+  if (← rd fun h => (h p).kind) ≠ .elem then raise .Hierarchy
+  match ref with
+  | some r => if (← rd fun h => (h r).parent) ≠ some p then raise .NotFound
+  | none => pure ()
+  if ref = some n then
+    pure ()
+  else
+    detachIfAttached n
+    match ref with
+    | none => appendChild p n
+    | some r => insertAtRef p n r
+
+/-- `demoHeap` after `node3.parentNode = node2` by hand: node 3 says it is a child of node 2, node 2 has no children -/
+def ghostHeap : Heap := setParent demoHeap 3 (some 2)
+
+/-- the pointer test is NOT atomic: `2.insertBefore(1, 3)` on `ghostHeap` passes the test, detaches node 1 from its
+    parent 0 and only then fails to find node 3 in the child list.  `insertBefore_atomic` rests on the membership test. -/
+theorem atomicity_needs_the_membership_test :
+    ((insertBeforeByParentPointer 2 1 (some 3)).run ghostHeap).2 = .error .NotFound ∧
+    (((insertBeforeByParentPointer 2 1 (some 3)).run ghostHeap).1 0).kids ≠ (ghostHeap 0).kids := by
+  refine ⟨by rfl, by decide⟩
+
+/-- non-vacuity: the real `insertBefore` refuses that call too, and node 1 stays under node 0 -/
+example : ((insertBefore 2 1 (some 3)).run ghostHeap).2 = .error .NotFound := by rfl
+example : (((insertBefore 2 1 (some 3)).run ghostHeap).1 0).kids = [1] := by decide
+example : (ghostHeap 3).parent = some 2 ∧ 3 ∉ (ghostHeap 2).kids := by decide
+
 end OdfModel.Props.C07
